@@ -67,13 +67,13 @@ def property_failure(tok, doc, text):
     return lg.check_invariants(text, res[2], doc)
 
 
-def shrink(text, fails, budget=400):
+def shrink(text, fails, budget=300):
     """Greedy delta-debugging on lines then characters while `fails(text)` stays true."""
     t0 = time.time()
     cur = text
     changed = True
     n = 0
-    while changed and n < budget and time.time() - t0 < 20:
+    while changed and n < budget and time.time() - t0 < 8:
         changed = False
         lines = cur.split("\n")
         for i in range(len(lines)):
@@ -309,9 +309,11 @@ def run(ctx):
     ctx.count("chars-total", sum(len(c[2]["text"]) for c in cases))
     ctx.count("tokens-total", sum(len(c[2]["res"][1]) for c in cases if c[2]["res"][0] == "toks"))
 
+    ctx.extra["t_before_coq"] = round(time.time() - ctx.t0, 1)
     runner = fw.CoqCases(ctx, "tok", HEADER + "Open Scope N_scope.\n", "run_tokenize code_table", "xresult_eqb",
                          "str", "xresult", shard=max(40, len(cases) // (3 * fw.NPROC) + 1), timeout=1500)
     bad = runner.run(cases)
+    ctx.extra["t_after_coq"] = round(time.time() - ctx.t0, 1)
     for a, b, obj in cases:
         r = obj["res"]
         ctx.case(obj["text"], nontrivial=(r[0] != "toks" or len(r[1]) > 0),
@@ -319,39 +321,36 @@ def run(ctx):
     ctx.obligation("correspondence: model = tokenizer.tokenize on %d texts (token lists with positions / error spans)" % len(cases), not bad)
 
     # ---- deciding ------------------------------------------------------------------------
-    reported = 0
-    for text, why, shape in py_fail[:3]:
-        report_input(ctx, tok, doc, text, why, shape)
-        reported += 1
-    unexplained = []
-    for idx, outtxt in bad:
-        obj = cases[idx][2]
-        why = property_failure(tok, doc, obj["text"])
-        if why:
-            if reported < 6:
-                report_input(ctx, tok, doc, obj["text"], why, obj["shape"])
-                reported += 1
-        else:
-            unexplained.append((idx, outtxt))
-    # direct check of the invariants on the implementation's output (support for the search; also runs when all agree)
+    # candidates for a concrete failing text, smallest first
+    need_search = bool(broken_facts) or bool(bad) or not thm_ok
+    found = []          # (text, why, shape)
+    for text, why, shape in py_fail:
+        found.append((text, why, shape))
+    bad_idx = {idx for idx, _ in bad}
+    order = sorted(range(len(cases)), key=lambda i: (i not in bad_idx, len(cases[i][2]["text"])))
     n_inv = 0
     budget = 6000 if ctx.thorough() else 1200
-    need_search = bool(broken_facts) or bool(unexplained) or not thm_ok
-    for a, b, obj in cases:
-        if n_inv >= budget and not need_search:
+    t_search = time.time()
+    for i in order:
+        obj = cases[i][2]
+        if len(found) >= 3 or time.time() - t_search > 120:
             break
-        if len(obj["text"]) > 3000:
+        if i not in bad_idx and not need_search and n_inv >= budget:
+            break
+        if len(obj["text"]) > 3000 and i not in bad_idx:
             continue
         n_inv += 1
         why = property_failure(tok, doc, obj["text"])
-        if why and reported < 6:
-            report_input(ctx, tok, doc, obj["text"], why, obj["shape"])
-            reported += 1
+        if why:
+            found.append((obj["text"], why, obj["shape"]))
     ctx.extra["invariant_checks_on_python_output"] = n_inv
-    if reported == 0:
-        for idx, outtxt in unexplained[:3]:
+    ctx.extra["search_seconds"] = round(time.time() - t_search, 1)
+    for text, why, shape in found[:3]:
+        report_input(ctx, tok, doc, text, why, shape)
+    ctx.extra["report_seconds"] = round(time.time() - t_search, 1)
+    if not found:
+        for idx, outtxt in bad[:3]:
             obj = cases[idx][2]
-            small = shrink(obj["text"], lambda s: False)
             ctx.violation("tokenizer-correspondence", "model and tokenizer.tokenize disagree on %r (no property failure found on the implementation)" % obj["text"][:120],
                           dict(kind="text", correspondence="Lex.Tokenizer.tokenize vs tokenizer.tokenize", text=obj["text"],
                                codepoints=[ord(c) for c in obj["text"]], python=cases[idx][1][:3000], model_outputs=outtxt[:3000]),
